@@ -162,7 +162,7 @@ static void peerTask(void* a) {
     switch (op.code) {
     case P_READ: { size_t n = 1 + op.a[1] % 2000; ssize_t r = recv(k.farFd, buf, n, 0); if (r > 0) peerRecvCheck(c, buf, r); else goto out; break; }
     case P_STALL: { static const int ms[] = {1, 3, 10, 40}; usleep(ms[op.a[1] % 4] * 1000); break; }
-    case P_SEND: { size_t n = 1 + op.a[1] % 300; for (size_t q = 0; q < n; ++q) buf[q] = codeByte(100 + c, k.peerSent + q); fcntl(k.farFd, F_SETFL, O_NONBLOCK); ssize_t r = send(k.farFd, buf, n, 0); fcntl(k.farFd, F_SETFL, 0); if (r > 0) k.peerSent += r; break; }
+    case P_SEND: { size_t n = 1 + op.a[1] % 300; for (size_t q = 0; q < n; ++q) buf[q] = codeByte(100 + c, k.peerSent + q); fcntl(k.farFd, F_SETFL, O_NONBLOCK); ssize_t r = send(k.farFd, buf, n, MSG_NOSIGNAL); fcntl(k.farFd, F_SETFL, 0); if (r > 0) k.peerSent += r; break; }
     case P_CAP: { static const int caps[] = {1, 7, 64, 500, 4096, 16384, 32768}; simnet::setCapacity(k.farFd, bigWritesAllowed() ? caps[4 + op.a[1] % 3] : caps[op.a[1] % 4]); break; }
     case P_CLOSE: k.peerClosedByScript = true; logEvent("peer_close", c); k.far->close(); k.peerDone = true; return;
     }
@@ -172,12 +172,19 @@ out:
   k.peerDone = true;
 }
 
+/* ballast: a few hundred idle pair clients registered before the scripted ones, so that the scripted clients are the 500th.. sockets of the server (the poll
+   layer's and the server's tables are sized for 500 entries; whatever they do beyond that must not change the behaviour of a client) */
+struct BallastCb : public Server::Client::ICallback { void onRead() override {} void onWrite() override {} void onClosed() override {} };
+static Socket* ballastFar[520]; static int nballast = 0;
 static void mainTask(void*) {
   const RunSpec& s = *C.spec;
   simnet::setDefaultCapacity((size_t)simdrv::knob(s, "cap", 65536));
   simnet::setSendHook(sendHook); simnet::setFailHook(failHook);
   C.srv = new Server;
   static ClientCb cbs[3]; static DriverCb dcb;
+  { static BallastCb bcb; int want = (int)simdrv::knob(s, "ballast", 0); if (want > 520) want = 520; nballast = 0;
+    for (int i = 0; i < want; ++i) { Socket* f = new Socket; if (!C.srv->pair(bcb, *f)) { delete f; break; } ballastFar[nballast++] = f; }
+    if (nballast) probe("ballast_clients"); }
   for (int c = 0; c < C.nc; ++c) {
     Cl& k = C.cl[c]; cbs[c].c = c; k.cb = &cbs[c]; k.far = new Socket;
     k.client = C.srv->pair(*k.cb, *k.far);
@@ -194,6 +201,7 @@ static void mainTask(void*) {
   for (int c = 0; c < C.nc; ++c) { Cl& k = C.cl[c]; if (k.peerGot > k.accepted) fail("C13/peer_got_unaccepted_bytes", "peer %d got %llu bytes, %llu accepted", c, (unsigned long long)k.peerGot, (unsigned long long)k.accepted); delete k.far; k.far = 0; }
   C.srv->remove(*C.driver);
   delete C.srv; C.srv = 0;
+  for (int i = 0; i < nballast; ++i) delete ballastFar[i]; nballast = 0;
 }
 
 static bool quiescence() { failSoft("C13/stuck", "server and peers all blocked with no timer pending"); return false; }
@@ -213,6 +221,7 @@ static void generate(RunSpec& s, int tier) {
   static const int caps[] = {1, 5, 32, 200, 1024, 2048, 65536, 16384, 32768, 49152}; s.knobs["cap"] = faulty ? caps[r(10)] : 1 << 20;
   static const int pct[] = {0, 5, 20, 50}; s.knobs["send_fault_pct"] = faulty ? pct[r(4)] : 0; s.knobs["recv_fault_pct"] = faulty ? pct[r(4)] : 0; s.knobs["epoll_fault_pct"] = faulty ? pct[r(4)] : 0; s.knobs["eintr_pct"] = faulty && r(3) == 0 ? 5 : 0;
   s.knobs["sync_switch_log2"] = 1 + r(4);
+  s.knobs["ballast"] = r(30) == 0 ? 496 + (int)r(8) : 0;   /* the scripted clients become the 497th..506th sockets of the server */
   int ns = 4 + (int)r(20);
   for (int i = 0; i < ns; ++i) {
     Op o; o.task = 0; o.a[0] = (int64_t)r(nc); o.a[1] = (int64_t)r(100000); o.a[2] = o.a[3] = 0;
